@@ -87,7 +87,7 @@ def rev_profile(fn, p):
         return uv_profile(p["radius"], lat), k, None, 2
     if fn == "capsule":
         c = p["count"]
-        lat, k = (32, 64) if c is None else (c[0] + c[0] % 2, c[1] + c[1] % 2)
+        lat, k = (32, 64) if c is None else (c[0] + c[0] % 2, c[1])
         return capsule_profile(p["radius"], p["height"], lat), k, None, 2
     if fn == "torus":
         ph = 2 * math.pi * np.arange(p["minor_sections"]) / p["minor_sections"]
